@@ -18,6 +18,6 @@ META = dict(
          "requested hash; GetHeader through the long-lived map never returns another header; extension and pruning keep every retained lookup; a new header is recorded at "
          "parent height + 1. For every state reached by any history of submissions (C09_wf_submissions): the height reported for a hash is the position of that very header "
          "(C09_height_is_position), a hash is held at exactly one place (C09_position_unique), GetHeader returns the requested header and is available while tracked "
-         "(C09_getHeader_tracked/_exact), PreviousHash is its true predecessor (C09_previousHash_exact), and a header accepted at some point is reported with the same height after any further submissions (C09_accepted_stays_known). The monitor recomputes true heights / ancestry from the header definitions and compares every lookup of every header at every dump. In the linear world (every fork-free history of any length with the automatic clean, Cleans, Saves, Loads of any depth) Hash(h) is the h-th accepted header at every height and HashHeight is exactly the position (C09_linear_world).",
+         "(C09_getHeader_tracked/_exact), PreviousHash is its true predecessor (C09_previousHash_exact), and a header accepted at some point is reported with the same height after any further submissions (C09_accepted_stays_known). The monitor recomputes true heights / ancestry from the header definitions and compares every lookup of every header at every dump. In the linear world (every fork-free history of any length with the automatic clean, Cleans, Saves, Loads of any depth) Hash(h) is the h-th accepted header at every height and HashHeight is exactly the position (C09_linear_world). From any loaded state (consistent image without repeated hashes) and over forest histories with maintenance, every header a tracked branch holds in memory is found at its owner, HashHeight is its position and no other tracked place holds its hash (C09_held_exact_after_load).",
     note=COMMON_NOTE + "Partial: see evidence. Pruned side-branch headers keep a height in the long-lived map by design.",
 )
